@@ -94,4 +94,14 @@ PLAN = {
         quick=[dict(test="TestC11", cases=640, shards=16, timeout=900)],
         thorough=[dict(test="TestC11", cases=24000, shards=16, timeout=3400, shrink=120)],
     ),
+    "C07": dict(
+        level="exploration",
+        rule=("a fresh chain per case (1-2 chain modules, 2-4 oracles each, signed window 2..6 set by governance); histories of <= 45 (90) steps applied to the block under construction through the real handlers - deposits, sends, batch requests, bridge calls, "
+              "confirmations per oracle of all / only oracle sets / only batches / only calls / nothing, governance proposals of 10 shapes (text, valid params, reverting contract call, failing raw store update, over-shrinking oracle list, over-spend, switch params, second message failing, allowed oracle-list change, custom params; "
+              "sufficient or insufficient deposit), votes, direct oracle-list updates, add-delegate, unbond, delegations, absent validators - interleaved with real FinalizeBlock+Commit of all begin/end blockers with time steps 5 s / 1 h / 15 d / 22 d. Oracle: no error, no panic. "
+              "non-trivial = a block was processed while an online oracle had left an oracle set / batch / outgoing bridge call older than the signed window unconfirmed, or a proposal ended"),
+        assumptions=["oracle claims are injected through the MsgClaim handler with unpacked claims (wire delivery of MsgClaim is impossible on this snapshot)", "governance raw store updates are restricted to value-preserving or failing ones (writing garbage into a module store is outside 'valid')"],
+        quick=[dict(test="TestC07", cases=320, shards=16, timeout=900)],
+        thorough=[dict(test="TestC07", cases=9600, shards=16, timeout=3400, shrink=120)],
+    ),
 }
